@@ -76,8 +76,8 @@ CLAIMED.update({
 CLAIMED.update({
  "C10": dict(engine="runnersim", cat="exploration", ref="DESIGN.md §3 C10",
    technique="deterministic simulation: whole committees (4, 7) of real validators + runners + QBFT in discrete-event simulated time; every broadcast passes the receiving peer's real message validator at its simulated arrival time and the real validator queue; round timers fire at the deadline the real RoundTimer computes; omission-faulty operators and connectivity outages injected from the step program",
-   text="All 7 roles, 1-3 slots, per-link latency 1..250 ms, per-operator duty start lag; three fault modes (fault-free FIFO; <= f omission-faulty operators withholding chosen message kinds from chosen peers; additionally outages of arbitrary operator sets, which reach rounds up to 12 with prepared-value round changes and justified proposals). Oracle at every (message emitted by a correct operator's real code, correct receiving peer incl. a non-committee observer): verdict is never reject; in fault-free runs every verdict is accept. One defect repaired (fix: b14331bc3), three known findings listed in known_findings.json.",
-   note="A correct peer is assumed to know the validator's share and duties. Signed-envelope (RSA) layer not active. The consumer loop of the validator queue (state, filter) is re-implemented around the real queue and prioritizer. Lost messages are never delivered late."),
+   text="All 7 roles, 1-3 slots, per-link latency 1..250 ms, per-operator duty start lag; three fault modes (fault-free FIFO; <= f omission-faulty operators withholding chosen message kinds from chosen peers; additionally outages of arbitrary operator sets, which reach rounds up to 12 with prepared-value round changes and justified proposals). Oracle at every (message emitted by a correct operator's real code, correct receiving peer incl. a non-committee observer): verdict is never reject; in fault-free runs every verdict is accept. The signed-envelope (RSA) layer runs in three settings (never, always, activating at the next epoch boundary). One defect repaired (fix: b14331bc3), four known findings (five signatures) listed in known_findings.json.",
+   note="A correct peer is assumed to know the validator's share and duties. p2pNetwork.Broadcast's envelope step (6 lines) is re-implemented in the transport stub with the real operator keys. The consumer loop of the validator queue (state, filter) is re-implemented around the real queue and prioritizer. Lost messages are never delivered late."),
 })
 
 NOT_YET = {}
